@@ -362,3 +362,102 @@ pub fn run_incr(obs: &Arc<Obs>, scenarios: &[J], out: &mut dyn Write, scratch: &
     }
     json!({"scenarios": scenarios.len(), "schedules": n_sched})
 }
+
+/// C10: several handles on the same files.  Scenario steps:
+///   ["open", h] ["tx", h, ops] ["compact", h] ["close", h] ["drop", h] ["child-open"] (a second process)
+/// At the end every handle is dropped, the database reopened and dumped.
+pub fn run_handles(scenarios: &[J], out: &mut dyn Write, scratch: &Path) -> J {
+    use std::collections::BTreeMap;
+    let exe = std::env::current_exe().unwrap();
+    for sc in scenarios {
+        let id = sc["id"].as_str().unwrap_or("s").to_string();
+        let dir = scratch.join("handles");
+        let _ = std::fs::remove_dir_all(&dir);
+        std::fs::create_dir_all(&dir).unwrap();
+        let mut handles: BTreeMap<String, GraphEngine> = BTreeMap::new();
+        let mut steps = Vec::new();
+        let mut acked: Vec<J> = Vec::new();
+        for st in sc["steps"].as_array().cloned().unwrap_or_default() {
+            let kind = st[0].as_str().unwrap_or("");
+            let h = st[1].as_str().unwrap_or("").to_string();
+            let others_open = handles.keys().filter(|k| **k != h).count();
+            let res = match kind {
+                "open" => match open_engine(&dir) {
+                    Ok(e) => {
+                        handles.insert(h.clone(), e);
+                        "ok".to_string()
+                    }
+                    Err(e) => e,
+                },
+                "tx" => match handles.get(&h) {
+                    Some(e) => {
+                        let ops = st[2].as_array().cloned().unwrap_or_default();
+                        let (r, _) = apply_ops(e, &ops, true);
+                        if r == "ok" {
+                            for o in &ops {
+                                if o[0] == "CreateNode" {
+                                    acked.push(json!([h, o[1]]));
+                                }
+                            }
+                        }
+                        r
+                    }
+                    None => "not-open".into(),
+                },
+                "compact" => match handles.get(&h) {
+                    Some(e) => match e.compact() {
+                        Ok(()) => "ok".into(),
+                        Err(e) => format!("err:{e}"),
+                    },
+                    None => "not-open".into(),
+                },
+                "close" => match handles.remove(&h) {
+                    Some(e) => match e.checkpoint_on_close() {
+                        Ok(()) => "ok".into(),
+                        Err(e) => format!("err:{e}"),
+                    },
+                    None => "not-open".into(),
+                },
+                "drop" => {
+                    handles.remove(&h);
+                    "ok".into()
+                }
+                "child-open" => {
+                    // a second process tries to open the same files and commit one node
+                    let o = std::process::Command::new(&exe).arg("child-open").arg("--dir").arg(&dir).output();
+                    match o {
+                        Ok(o) => {
+                            let t = String::from_utf8_lossy(&o.stdout).trim().to_string();
+                            if t.starts_with("ok") {
+                                acked.push(json!(["child", "777"]));
+                            }
+                            t
+                        }
+                        Err(e) => format!("spawn-failed:{e}"),
+                    }
+                }
+                other => format!("unknown:{other}"),
+            };
+            steps.push(json!({"kind": kind, "h": h, "res": res, "others_open": others_open}));
+        }
+        handles.clear();
+        let keys = vec!["p".to_string()];
+        let fin = match open_engine(&dir) {
+            Ok(e) => json!({"open": "ok", "d": dump_engine(&e, &keys)}),
+            Err(e) => json!({"open": e, "d": {"e2i": []}}),
+        };
+        writeln!(out, "{}", json!({"ev": "handles", "id": id, "steps": steps, "acked": acked, "final": fin})).unwrap();
+        let _ = std::fs::remove_dir_all(&dir);
+    }
+    json!({"scenarios": scenarios.len()})
+}
+
+pub fn child_open(dir: &Path) {
+    match open_engine(dir) {
+        Ok(e) => {
+            let (r, _) = apply_ops(&e, &[json!(["CreateNode", "777", "Child"])], true);
+            println!("{}", if r == "ok" { "ok".to_string() } else { format!("opened-but-commit-failed:{r}") });
+        }
+        Err(e) => println!("refused:{e}"),
+    }
+}
